@@ -90,34 +90,46 @@ def check_fix_whitespace(report):
     fi = m.func("gapic.generator.formatter.fix_whitespace")
     fn, p = fi.node, fi.module.path
     CODE = fn.args.args[0].arg
-    # a substitution step is re.sub(<literal>, <literal>, code) or <P>.sub(<literal>, code) with P = re.compile(<literal>) at module level
-    compiled = {}
-    for st in fi.module.tree.body:
-        if isinstance(st, ast.Assign) and len(st.targets) == 1 and isinstance(st.targets[0], ast.Name) and isinstance(st.value, ast.Call) \
-                and ast.unparse(st.value.func) == "re.compile" and len(st.value.args) == 1 and isinstance(st.value.args[0], ast.Constant) \
-                and not st.value.keywords:
-            compiled[st.targets[0].id] = st.value.args[0].value
-    subs = []
-    for c in calls(fn):
-        f = ast.unparse(c.func)
-        if f == "re.sub":
-            subs.append((c, c.args[0].value if c.args and isinstance(c.args[0], ast.Constant) else None, c.args[1] if len(c.args) > 1 else None,
-                         c.args[2] if len(c.args) > 2 else None, len(c.args) == 3))
-        elif isinstance(c.func, ast.Attribute) and c.func.attr == "sub":
-            base = ast.unparse(c.func.value)
-            r.need(base in compiled, f"{base}.sub(...)", "substitution through a pattern object that is not a module-level re.compile(<literal>)")
-            subs.append((c, compiled[base], c.args[0] if c.args else None, c.args[1] if len(c.args) > 1 else None, len(c.args) == 2))
-    r.need(len(subs) >= 3, "substitution steps in fix_whitespace")
-    for c, pat, rep_node, subj, arity_ok in subs:
-        r.instance(ast.unparse(c)[:100])
-        ok = arity_ok and isinstance(pat, str) and isinstance(rep_node, ast.Constant) and isinstance(rep_node.value, str) and subj is not None \
-            and ast.unparse(subj) == CODE and not c.keywords
-        r.check(ok, p, c.lineno, ast.unparse(c)[:100], "each step must be a substitution of a literal pattern by a literal replacement applied to `code` (no count / flags)")
-        if not ok:
-            continue
-        st = [n for n in fn.body if isinstance(n, ast.Assign) and n.value is c]
-        r.check(len(st) == 1 and ast.unparse(st[0].targets[0]) == CODE, p, c.lineno, "result assigned back to code", "steps must be chained on the same variable")
-        rep = rep_node.value
+    # Read off the normal form (vlib/pynorm.py): the function must be  f"{<chain>.rstrip()}\n"  where <chain> is a nest of
+    # re.sub(<literal>, <literal>, X) / re.compile(<literal>).sub(<literal>, X) ending in `code` - however the steps are written
+    # (statements, precompiled module-level patterns, a table of passes applied in a loop ...).
+    from ..pymodel import nreturn
+    e = nreturn(m, fi)
+    r.need(e is not None, "fix_whitespace", "the function does not reduce to one expression; the rule cannot judge it")
+    inner = None
+    if isinstance(e, ast.JoinedStr) and len(e.values) == 2 and isinstance(e.values[0], ast.FormattedValue) and isinstance(e.values[1], ast.Constant) \
+            and e.values[1].value == "\n":
+        v0 = e.values[0].value
+        if isinstance(v0, ast.Call) and isinstance(v0.func, ast.Attribute) and v0.func.attr == "rstrip" and not v0.args:
+            inner = v0.func.value
+    r.instance("single trailing newline")
+    r.check(inner is not None, p, fn.lineno, ast.unparse(e)[:100], "the result must be the code with trailing whitespace removed plus exactly one newline")
+    steps = []
+    x = inner
+    wellformed = inner is not None
+    while wellformed and not (isinstance(x, ast.Name) and x.id == CODE):
+        if isinstance(x, ast.Call) and ast.unparse(x.func) == "re.sub" and len(x.args) == 3 and not x.keywords \
+                and all(isinstance(a_, ast.Constant) and isinstance(a_.value, str) for a_ in x.args[:2]):
+            steps.append((x.args[0].value, x.args[1].value))
+            x = x.args[2]
+        elif isinstance(x, ast.Call) and isinstance(x.func, ast.Attribute) and x.func.attr == "sub" and isinstance(x.func.value, ast.Call) \
+                and ast.unparse(x.func.value.func) == "re.compile" and len(x.func.value.args) == 1 and not x.func.value.keywords \
+                and isinstance(x.func.value.args[0], ast.Constant) and len(x.args) == 2 and not x.keywords and isinstance(x.args[0], ast.Constant):
+            steps.append((x.func.value.args[0].value, x.args[0].value))
+            x = x.args[1]
+        else:
+            wellformed = False
+    steps.reverse()
+    r.instance("chain of literal substitutions on code")
+    r.check(wellformed, p, fn.lineno, ast.unparse(x)[:100] if x is not None else "",
+            "each step must be a substitution of a literal pattern by a literal replacement applied to the running text (no count / flags / other rewrites)")
+    r.need(len(steps) >= 3 or not wellformed, "substitution steps in fix_whitespace", str(len(steps)))
+
+    class _C:       # positions are reported at the function
+        lineno = fn.lineno
+    c = _C()
+    for pat, rep in steps:
+        r.instance(f"re.sub({pat!r}, {rep!r}, code)")
         tree = sre_parser.parse(pat)
         content_groups = []      # group numbers whose text must be preserved
         prev_newline = False
@@ -168,10 +180,6 @@ def check_fix_whitespace(report):
         rest = _re.sub(r"\\\d", "", rep).replace("\\n", "\n")
         r.check(set(rest) <= {"\n", " "} and ("\n" in rest) == ("\\n" in pat or "\n" in pat), p, c.lineno, f"replacement {rep!r}",
                 "besides the groups a replacement may only contain whitespace, and must keep a line break where the pattern matched one")
-    rets = [n for n in ast.walk(fn) if isinstance(n, ast.Return)]
-    r.instance("single trailing newline")
-    r.check(len(rets) == 1 and ast.unparse(rets[0].value) in (f"f'{{{CODE}.rstrip()}}\\n'", f"{CODE}.rstrip() + '\\n'"), p, fn.lineno,
-            ast.unparse(rets[0].value) if rets else "", "the result must be the code with trailing whitespace removed plus exactly one newline")
 
 
 def check_rst(report):
@@ -186,11 +194,22 @@ def check_rst(report):
     writes = [n for n in ast.walk(fn) if isinstance(n, (ast.Assign, ast.AugAssign)) and
               any(isinstance(t, ast.Name) and t.id == A for t in (n.targets if isinstance(n, ast.Assign) else [n.target]))]
     guards = {}
-    for n in fn.body:
-        if isinstance(n, ast.If) and pmatch("_A_.endswith('\"')", n.test, {"_A_": A}) is not None:
-            guards["trailing double quote"] = n
-        if isinstance(n, ast.If) and pmatch("_A_.endswith('\\\\')", n.test, {"_A_": A}) is not None:
-            guards["trailing backslash"] = n
+    for top in fn.body:
+        # an if / elif chain of guards: a later link is as good as a statement of its own when every earlier link's body only appends a
+        # literal that ends neither in a quote nor in a backslash (the later condition is then impossible after an earlier link ran)
+        n, earlier_safe = top, True
+        while isinstance(n, ast.If):
+            hit = None
+            if pmatch("_A_.endswith('\"')", n.test, {"_A_": A}) is not None:
+                hit = "trailing double quote"
+            if pmatch("_A_.endswith('\\\\')", n.test, {"_A_": A}) is not None:
+                hit = "trailing backslash"
+            if hit and earlier_safe:
+                guards[hit] = top
+            body_ok = len(n.body) == 1 and isinstance(n.body[0], ast.AugAssign) and isinstance(n.body[0].op, ast.Add) and isinstance(n.body[0].value, ast.Constant) \
+                and isinstance(n.body[0].value.value, str) and n.body[0].value.value and n.body[0].value.value[-1] not in "\"\\"
+            earlier_safe = earlier_safe and body_ok
+            n = n.orelse[0] if len(n.orelse) == 1 else None
     triple = [n for n in fn.body if isinstance(n, ast.Assign) and isinstance(n.targets[0], ast.Name) and n.targets[0].id == A
               and isinstance(n.value, ast.Call) and ast.unparse(n.value.func) == f"{A}.replace" and n.value.args
               and isinstance(n.value.args[0], ast.Constant) and n.value.args[0].value == '"""']
@@ -302,7 +321,13 @@ def check_wrap_and_doc(report):
                               f"else ('\\n\\n'.join({D_}.leading_detached_comments) if {D_}.leading_detached_comments else ''))", mode="eval").body)
     r5.instance("leading > trailing > detached > ''")
     r5.need(e is not None, "Metadata.doc", "the function does not reduce to a decision table; the rule cannot judge it")
-    ok, cex = tables_equivalent(e, ref)
+    DET = f"{D_}.leading_detached_comments"
+    JOIN = f"'\\n\\n'.join({DET})"
+
+    def leaf_equal(a, b, assign):
+        # joining an empty (falsy) sequence gives '': the explicit guard for it is optional
+        return assign.get(DET) is False and {a, b} == {"''", JOIN}
+    ok, cex = tables_equivalent(e, ref, leaf_equal=leaf_equal)
     r5.need(ok is not None, "Metadata.doc", str(cex))
     r5.check(ok, fi.module.path, fi.node.lineno, f"Metadata.doc differs from the reference selection: {cex}",
              "comment selection order leading > trailing > detached > '' (leading and trailing stripped; detached comments joined by blank lines)")
